@@ -329,3 +329,31 @@ _t_shared_structs = tasks
 def tasks(tier):
     from specs.C08 import shared_struct_tasks
     return _t_shared_structs(tier) + shared_struct_tasks('C07.g.', ['LendingPoolHandleBankruptcy'])
+
+
+
+# ---------------------------------------------------------------- C07.e (frozen path): the limits-only configuration path taken for frozen banks cannot touch the operational state at all
+def t_configure_frozen_terminal(world, oid='C07.e.frozen'):
+    eng = world.engine(merge=True)
+    f = world.fn(r'bank\.rs[^>]*>::configure_unfrozen_fields_only$')
+    bank = eng.ex.fresh('&mut Bank', 'bank'); cfg = eng.ex.fresh('&BankConfigOpt', 'cfg')
+    res = eng.run_fn(f, [bank, cfg])
+    ob = Ob(oid, 'Bank::configure_unfrozen_fields_only (the path configure_bank takes for a frozen bank): never moves a bank out of (or into) KilledByBankruptcy, for all optional fields at once',
+            [f.name], 'loop-free; all Option fields symbolic, state-merged', role='killed-terminal')
+    ob.paths = len(res)
+    st0 = fsym('bank*', 'Bank', 'config.operational_state')
+    for r in returned(res):
+        okc = z3.simplify(disc_is(r['ret'], 0)) if isinstance(r['ret'], EnumV) else z3.BoolVal(True)
+        if z3.is_false(okc): continue
+        b1 = r['roots'][0]
+        st1 = ev(fget(eng, b1, 'Bank', 'config.operational_state'))
+        if ob.witness(eng, r, [okc]) is False: continue
+        ob.prove(eng, r, [okc, st0 == KILLED], st1 == KILLED, 'a killed bank stays killed (permanently shut), frozen or not', role='leaves-killed')
+        ob.prove(eng, r, [okc, st0 != KILLED], st1 != KILLED, 'no admin can put a bank into the killed state', role='enters-killed')
+    ob.need_witness()
+    return [ob]
+
+
+_t_cft = tasks
+def tasks(tier):
+    return _t_cft(tier) + [('configure_frozen_terminal', t_configure_frozen_terminal)]
